@@ -42,7 +42,7 @@
 (* Domains.  Relax is the set of relaxations of the *clean* domain that    *)
 (* Init generates; Guard the set under which the invariants are asserted.  *)
 (* clean  = every scope level that Griffe's walk visits but Python's       *)
-(*          lookup does not (enclosing classes, parent packages, ...) and  *)
+(*          lookup does not (enclosing classes, pseudo-declarations, ...)  *)
 (*          vice versa (parameters of non-__init__ methods) binds nothing. *)
 (* Relax = Guard = {d} exhibits one recorded defect class each (TLC must   *)
 (* report the invariant violated there).                                   *)
@@ -56,6 +56,8 @@ CONSTANTS KindsM,  \* binding kinds enumerated at module level   (always contain
           RelNames, \* names imported by the statements of the rel family (subset of ImpNames)
           RelMods,  \* site modules of the rel family (subset of Mods)
           MaxUp,    \* how many ancestor packages may bind the name (1 or 2)
+          KindsI,   \* what the base class Z of A and B declares under the name ("none", "l_dclass", "l_dfunc", "l_dattr": Z is
+                    \* defined in M; "i_dclass": Z is imported from another module of the package)
           Fams,    \* subset of {"scope", "rel"}
           Relax,   \* relaxations generated          (subset of AllRelax)
           Guard,   \* relaxations under which the property invariants are asserted
@@ -63,7 +65,7 @@ CONSTANTS KindsM,  \* binding kinds enumerated at module level   (always contain
 
 Nil == "nil"
 None == "none"
-AllRelax == {"package", "nested", "method", "shortcut", "mparam", "decl", "eloc"}
+AllRelax == {"nested", "method", "shortcut", "mparam", "decl", "eloc"}
 
 \* ---- the skeleton ------------------------------------------------------------------------------
 Mods == {"P", "PA", "PS", "PSB", "PSD", "Q"}       \* PSD = pkg/sub/deep/__init__.py: site module of the rel family only
@@ -96,9 +98,9 @@ Scopes == {"mod", "A", "B", "A.init", "A.m", "B.init", "B.m"}
 InitScopes == {"A.init", "B.init"}
 MScopes == {"A.m", "B.m"}
 
-VARIABLES fam, M, n, up1, up2, modb, ab, bb, fnb, st, S,      \* the case
+VARIABLES fam, M, n, up1, up2, modb, ab, bb, fnb, inh, st, S, \* the case
           pc, cur, mem, impl, binder, py, pyl, just            \* the run
-casevars == <<fam, M, n, up1, up2, modb, ab, bb, fnb, st, S>>
+casevars == <<fam, M, n, up1, up2, modb, ab, bb, fnb, inh, st, S>>
 vars == <<casevars, pc, cur, mem, impl, binder, py, pyl, just>>
 
 NoStmt == [stmt |-> Nil, level |-> 0, mod |-> <<>>, name |-> Nil, asname |-> Nil]
@@ -192,6 +194,11 @@ ModuleMember(m, explicit) ==            \* members of a module object: what its 
   ELSE IF n = "K" THEN [has |-> TRUE, kind |-> "dclass", path |-> MPath[m] \o <<"K">>]
   ELSE IF n \in Submods[m] THEN [has |-> TRUE, kind |-> "submodule", path |-> MPath[m] \o <<n>>]
   ELSE NoMem
+\* Classes A and B both derive from a class Z (statically resolvable: defined in M or imported from the package) which may
+\* declare n.  Object.resolve consults `self.members` - the class's OWN members - never `all_members`: what Z declares is
+\* part of the tree (Inherited) but of no scope, neither Griffe's nor Python's.
+ZMod == IF inh = "i_dclass" THEN (IF M = "PA" THEN "PSB" ELSE "PA") ELSE M
+Inherited(o) == IF o \in {"A", "B"} /\ inh # None THEN [has |-> TRUE, kind |-> inh, path |-> MPath[ZMod] \o <<"Z", n>>] ELSE NoMem
 MemberAt(o) ==
   CASE o \in {"fA", "fB"} -> FromKind(KindAt(o), o)      \* visit_import with current = the __init__ function
     [] o \in {"mA", "mB"} -> NoMem                        \* bodies of other functions are not visited
@@ -263,7 +270,6 @@ UpNames == Generic \cup {"A", "B"}
 RealBind(k) == k \notin ({None} \cup PseudoKinds)
 FnStops == S \in InitScopes /\ fnb # None
 InDom(R) ==
-  /\ ("package" \notin R) => (up1 = None /\ up2 = None /\ n \notin AncSub(M))
   /\ ("nested" \notin R) => (S = "B" => (ab = None \/ RealBind(bb)))
   /\ ("method" \notin R) => /\ (S \in {"A.init", "A.m"} /\ ~FnStops) => ab = None
                             /\ (S \in {"B.init", "B.m"} /\ ~FnStops) => (bb = None /\ (ab = None \/ n = "B"))
@@ -280,6 +286,8 @@ ScopeInit ==
   /\ fnb \in (IF n \in SubNames THEN {None, "param"} ELSE {None, "param", "limp"})
   /\ up1 \in (IF Anc1(M) # Nil /\ n \in UpNames THEN {None, "dclass"} ELSE {None})
   /\ up2 \in (IF Anc2(M) # Nil /\ n \in UpNames /\ MaxUp >= 2 THEN {None, "dclass"} ELSE {None})
+  \* inherited members are orthogonal to the other levels: enumerated where nothing else varies
+  /\ inh \in (IF n \in Generic \cup {"A", "B"} /\ up1 = None /\ up2 = None /\ fnb = None THEN KindsI ELSE {None})
   /\ S \in Scopes
 
 AbsMods == {<<"pkg">>, <<"pkg", "a">>, <<"pkg", "sub">>, <<"pkg", "sub", "b">>, <<"q">>}
@@ -292,7 +300,7 @@ RelInit ==        \* the same statement at module level, in class A and in A.__i
   /\ M \in RelMods /\ st \in RelStmts
   /\ n = (IF st.asname # Nil THEN st.asname ELSE st.name)
   /\ modb = (IF n = "K" THEN None ELSE "st")       \* the module already defines its own class K
-  /\ ab = "st" /\ bb = None /\ fnb = "limp" /\ up1 = None /\ up2 = None
+  /\ ab = "st" /\ bb = None /\ fnb = "limp" /\ up1 = None /\ up2 = None /\ inh = None
   /\ S \in (IF n = "K" THEN {"A", "A.init"} ELSE {"mod", "A", "A.init"})
 
 Init ==
@@ -325,15 +333,17 @@ FunctionResolveParam ==       \* Function.resolve: return f"{self.parent.path}({
 MemberHit ==                  \* Object.resolve: name in self.members -> target_path (alias) or path
   /\ pc = "resolve" /\ ~InitParam /\ mem[cur].has
   /\ Finish([k |-> "path", p |-> mem[cur].path], HitLabel(cur))
-NoParent ==                   \* self.parent is None: raise NameResolutionError (ExprName.canonical_path returns the name)
-  /\ pc = "resolve" /\ ~InitParam /\ ~mem[cur].has /\ ObjParent(cur) = Nil
+Outermost == ObjParent(cur) = Nil \/ IsModuleObj(cur)      \* self.parent is None or self.is_module
+NoParent ==                   \* ... raise NameResolutionError (ExprName.canonical_path returns the name): a module is the
+                              \* outermost scope, its parent package is not an enclosing scope
+  /\ pc = "resolve" /\ ~InitParam /\ ~mem[cur].has /\ Outermost
   /\ Finish([k |-> "name", p |-> <<n>>], "none")
-ShortcutCond == IF ObjParent(cur) = Nil THEN FALSE ELSE n = ObjName(ObjParent(cur)) /\ ~IsModuleObj(ObjParent(cur))
+ShortcutCond == IF Outermost THEN FALSE ELSE n = ObjName(ObjParent(cur)) /\ ~IsModuleObj(ObjParent(cur))
 ParentNameShortcut ==         \* name == self.parent.name and not self.parent.is_module: return self.parent.path
-  /\ pc = "resolve" /\ ~InitParam /\ ~mem[cur].has /\ ObjParent(cur) # Nil /\ ShortcutCond
+  /\ pc = "resolve" /\ ~InitParam /\ ~mem[cur].has /\ ~Outermost /\ ShortcutCond
   /\ Finish([k |-> "path", p |-> ObjPath(ObjParent(cur))], "parent-shortcut")
 RecurseParent ==              \* return self.parent.resolve(name)
-  /\ pc = "resolve" /\ ~InitParam /\ ~mem[cur].has /\ ObjParent(cur) # Nil /\ ~ShortcutCond
+  /\ pc = "resolve" /\ ~InitParam /\ ~mem[cur].has /\ ~Outermost /\ ~ShortcutCond
   /\ cur' = ObjParent(cur)
   /\ UNCHANGED <<casevars, pc, mem, impl, binder, py, pyl, just>>
 
@@ -383,6 +393,8 @@ VerdictEloc == IF Exempt THEN "exempt" ELSE IF Unchanged THEN "ok" ELSE "eloc"
 ResolvesToPythonBinding == (Asserted /\ py.b = "obj") => impl = [k |-> "path", p |-> py.p]
 \* the same for stringized annotations, which are evaluated after the module has been executed
 StringAnnotationResolves == (Asserted /\ pyl.b = "obj") => impl = [k |-> "path", p |-> pyl.p]
+\* members inherited from a base class are in no scope: the answer is never the path of what the base class declares
+InheritedNeverAnswers == (Done /\ inh # None) => (impl.k = "path" => impl.p # Inherited("A").path)
 \* a parameter stays local: Griffe's `Class(param)` notation for __init__ parameters, or the name unchanged
 ParamStaysLocal == (Asserted /\ py.b = "param") => (Unchanged \/ impl = [k |-> "param", p |-> py.p])
 \* clause 3: no static binding => unchanged, or a path some definition/import in (Python's) scope justifies
@@ -404,7 +416,7 @@ WalkWellFormed ==
 EmitCase ==
   (Emit /\ Done) =>
     PrintT(<<"CASE", ToJson([fam |-> fam, M |-> M, n |-> n, up1 |-> up1, up2 |-> up2, modb |-> modb, ab |-> ab, bb |-> bb,
-                             fnb |-> fnb, st |-> st, S |-> S, impl |-> impl, binder |-> binder,
+                             fnb |-> fnb, inh |-> inh, zmod |-> ZMod, st |-> st, S |-> S, impl |-> impl, binder |-> binder,
                              py |-> py, pyl |-> pyl, mvl |-> VerdictLate, just |-> just, suffix |-> Suffix, mv |-> Verdict, mve |-> VerdictEloc,
                              clean |-> InDom({}), exempt |-> Exempt, why |-> (IF Exempt THEN PyStmt(st).why ELSE ""),
                              stm |-> IF S = "A.init"
